@@ -332,6 +332,12 @@ func partForks(c *vh.Ctx, spec cfgSpec, idx int) {
 	if pan, pv := vh.CatchPanic(func() { tw = buildTwin(c, spec) }); pan {
 		c.Fatal("fork generation panicked (%s): %v", spec.name, pv)
 	}
+	runForkHistories(c, tw, idx, true)
+}
+
+// runForkHistories: cold references, then every arrival order of the two forks on one node
+// (selfcheck: the generator's own sanity checks; off when the forks come from a replay file)
+func runForkHistories(c *vh.Ctx, tw *twinT, idx int, selfcheck bool) {
 	// the two forks really differ at the shared identities, and later blocks read them
 	c.Count(fmt.Sprintf("forks:prefix=%d/A=%d/B=%d", len(tw.prefix), len(tw.fork[0]), len(tw.fork[1])))
 	// cold references
@@ -358,7 +364,7 @@ func partForks(c *vh.Ctx, spec cfgSpec, idx int) {
 				seen = true
 			}
 		}
-		if s0 == nil || s1 == nil || s0.GetCodeSize(tw.x) != wantSize || !seen {
+		if selfcheck && (s0 == nil || s1 == nil || s0.GetCodeSize(tw.x) != wantSize || !seen) {
 			c.Fatal("fork generator is not adversarial: fork %c code size at %x = %d (want %d), EXTCODESIZE stored by a probe: %v (slots %v %v; receipts %s)", 'A'+f, tw.x, s0.GetCodeSize(tw.x), wantSize, seen,
 				s1.GetState(probeAddrs[0], common.Hash{}).Big(), s1.GetState(probeAddrs[1], common.Hash{}).Big(), func() string {
 					out := ""
@@ -371,7 +377,7 @@ func partForks(c *vh.Ctx, spec cfgSpec, idx int) {
 		}
 		// ... and the block-context probe really stored the ancestry as seen from this fork: for the block
 		// N in which it last ran (slot NUMBER), BLOCKHASH(N-1) is the hash of this fork's block N-1
-		if tip, _ := n.bc.StateAt(tw.fork[f][len(tw.fork[f])-1].Root()); tip != nil {
+		if tip, _ := n.bc.StateAt(tw.fork[f][len(tw.fork[f])-1].Root()); tip != nil && selfcheck {
 			num := tip.GetState(ctxAddr, common.BytesToHash([]byte{0x32})).Big().Uint64()
 			all := append(append([]*types.Block{}, tw.prefix...), tw.fork[f]...)
 			if num < 2 || int(num) > len(all) || tip.GetState(ctxAddr, common.BytesToHash([]byte{0x10})) != all[num-2].Hash() ||
